@@ -20,6 +20,10 @@ open CV CV.Pipeline CV.Consistency
 def validatedTree (c : Cfg) (docs : List Val.KVs) : Out Val :=
   (processDocs c (.map []) docs).bind (defaultsStage c)
 
+/-- the same for files given as YAML text (`loadY`) -/
+def validatedTreeY (c : Cfg) (files : List (List Reset.YNode)) : Out Val :=
+  (processFiles c (.map []) files).bind (defaultsStage c)
+
 /-- the option record of the typed tail -/
 def tailOpts (c : Cfg) (skipConsistencyCheck : Bool) : Glue.Opts :=
   { skipValidation := c.opts.skipValidation, skipNormalization := c.opts.skipNormalization,
